@@ -18,7 +18,7 @@ THEOREMS = [
 COMPONENTS = ['hypotheses of the assembly theorems (well-formedness of asset problems) evaluated on every captured real asset problem', 'assemble (all aspects, positional) on captured real asset problems',
               'coarsen (fine steps per coarse step, coarse step lengths) vs the restricted grid the real code builds for every asset on a coarser frequency']
 RULE = ('random portfolios incl. order books with out-of-horizon orders (row-less variables), transports/multi-commodity (several rows per variable), '
-        'MIP assets and scaled assets (appended variables), adversarial asset/node names; '
+        'MIP assets and scaled assets (appended variables), scaled assets inside a structured asset at its internal node (every fifth case: the scale keeps the kind size, finding F-07c), adversarial asset/node names; '
         'stream gap: nodes whose dispatch has gaps in time (dead zones inside the horizon for a random set of nodes: all assets, wrapped assets and orders touching them live in the remaining segments; few full-horizon markets) - nodal rows checked in both directions; '
         'stream coarse: assets on their own coarser frequency whose coarse steps hold unequal numbers of fine steps (calendar days of 23/24/25 h and weeks on zone-aware sub-daily grids across a daylight-saving switch, '
         'life times beginning part of a coarse step before the horizon or inside it, remainders) and equal-length controls; '
@@ -56,6 +56,14 @@ def scenarios(seed, tier):
                 o['price'].append(3.0)
             s['assets'].append({'type': 'ScaledAsset', 'name': 'sob', 'base': base,
                                 'args': {'min_scale': 0.0, 'max_scale': 2.0, 'norm_scale': r1.choice([1.0, 2.0]), 'fix_costs': gen.q8(r1, 0.125, 1)}})
+        if i % 5 == 2:
+            # a scaled asset INSIDE a structured asset, at the internal node: its scale keeps the kind 'size' (finding F-07c)
+            for a in s['assets']:
+                if a['type'] == 'StructuredAsset' and len(a['inner']) > 1 and a['inner'][1]['type'] != 'ScaledAsset':
+                    b = a['inner'][1]
+                    a['inner'][1] = {'type': 'ScaledAsset', 'name': b['name'] + '_sc', 'base': b,
+                                     'args': {'min_scale': r1.choice([0.0, 0.5]), 'max_scale': r1.choice([1.0, 2.0, 4.0]),
+                                              'norm_scale': r1.choice([1.0, 2.0]), 'fix_costs': gen.q8(r1, 0, 1)}}
         yield 'gen%d' % i, s
     # nodes whose dispatch has gaps in time (life times inside the horizon, hardly any full-horizon market, sparse order books):
     # a nodal row exists exactly for the (node, step) pairs with dispatch, in both directions
@@ -265,6 +273,24 @@ def structural(rec):
         if ds and not iis <= ds:
             bad('asset %r: internal variables are labelled with steps %s at which the asset has no dispatch variable (its active steps: %d..%d)' % (
                 a.name, sorted(iis - ds)[:4], min(ds), max(ds)), what='internal_steps', asset_type=type(a).__name__)
+    # kinds survive wrapping: the scale of a scaled asset inside a structured asset is still described as 'size' (its value and
+    # fixed costs are reported from that row), whatever node it sits at (repaired finding F-07c: typed 'i' at internal nodes)
+    for a in portf.assets:
+        if type(a).__name__ != 'StructuredAsset' or not len(m) or 'internal_asset' not in m.columns:
+            continue
+        rows = m[m['asset'] == a.name]
+        for b in a.portfolio.assets:
+            if type(b).__name__ != 'ScaledAsset':
+                continue
+            rb = rows[rows['internal_asset'].astype(str) == b.name]
+            if not len(rb):
+                continue                      # (inactive base: nothing to scale, no scale variable)
+            sc = rb[rb['var_name'].astype(str) == 'scale__' + b.name]
+            kinds = sorted(set(str(k) for k in sc['type'].values))
+            if len(sc) != 1 or kinds != ['size']:
+                bad('structured asset %r wraps the scaled asset %r (node %s, %s): its scale variable is described by %d mapping row(s) of kind %s, '
+                    'it is of kind \'size\'' % (a.name, b.name, b.node_names[0], 'external' if b.node_names[0] in a.node_names else 'internal', len(sc), kinds),
+                    what='wrapped_size_kind', asset_type='StructuredAsset')
     # stand-alone problems of the assets
     for a in portf.assets:
         cap = rec['captured'][a.name]
